@@ -58,8 +58,9 @@ Record hstate := HS { hs_cfg : hcfg; hs_started : option started }.
     l.716), keyed by handler name, first = outermost *)
 Record rstate := RS { handlers : list hstate (* in AddHandler order *); mws : list mwreg;
                       pubdecs : list N; subdecs : list N;
-                      pfails : list (N * nat); residue : list (N * list N) }.
-Definition rinit : rstate := RS [] [] [] [] [] [].
+                      pfails : list (N * nat); residue : list (N * list N);
+                      pending : list (N * (list N * list N)) }.
+Definition rinit : rstate := RS [] [] [] [] [] [] [].
 
 (** one message handed to the subscriber environment: every subscription made on subscriber object
     [d_sub] for topic [d_topic] receives its own copy; [d_ctx] = router keys the message context
@@ -73,7 +74,9 @@ Inductive op :=
 | OAddHMw (name : N) (id : N) (app : option M)   (* Handler.AddMiddleware of handler [name] *)
 | OAddPubDec (d : N) (fails : nat)               (* a decorator whose constructor returns an error the first [fails] times it is called *)
 | OAddSubDec (d : N) (fails : nat)
-| OStart                                         (* Run, or RunHandlers on a running router *)
+| OStart                                         (* Run / RunHandlers, and every started handler's goroutine has copied r.middlewares *)
+| OStartAsync                                    (* RunHandlers returned; the new handlers' goroutines have NOT yet reached their copy *)
+| OSnap (name : N)                               (* handler [name]'s goroutine copies r.middlewares (under middlewaresLock) *)
 | OStop (name : N)                               (* Handler.Stop of a started handler, until it is removed from r.handlers *)
 | ODeliver (d : delivery).
 
@@ -90,61 +93,97 @@ Definition spend (pf : list (N * nat)) (d : N) : list (N * nat) :=
 Definition residue_of (st : rstate) (n : N) : list N :=
   match find (fun p => N.eqb (fst p) n) (residue st) with Some p => snd p | None => [] end.
 Definition unstarted (hs : hstate) : bool := match hs_started hs with None => true | Some _ => false end.
+(** a handler RunHandlers has started (h.started = true) but whose goroutine has not copied
+    r.middlewares yet is kept with [hs_started = None] (it cannot handle a message yet) and an entry in
+    [pending] that holds the decorator lists it froze when it was started *)
+Definition pending_of (st : rstate) (n : N) : option (list N * list N) :=
+  match find (fun p => N.eqb (fst p) n) (pending st) with Some p => Some (snd p) | None => None end.
+Definition is_pending (st : rstate) (n : N) : bool :=
+  match pending_of st n with Some _ => true | None => false end.
+(** waiting to be started by the next RunHandlers: h.started = false *)
+Definition waiting (st : rstate) (hs : hstate) : bool :=
+  unstarted hs && negb (is_pending st (h_name (hs_cfg hs))).
 (** the handler RunHandlers processes first.  Go iterates r.handlers in map order; the model takes
-    registration order.  This matters only for WHICH handler keeps a residue when a subscriber
-    decorator fails while several handlers are waiting to be started (see checks/wiring.py ASSUMPTIONS). *)
-Definition first_unstarted (st : rstate) : option hstate := find unstarted (handlers st).
+    registration order; since a failed attempt leaves nothing behind (repaired) it makes no difference. *)
+Definition first_unstarted (st : rstate) : option hstate := find (waiting st) (handlers st).
 Definition add_fail (pf : list (N * nat)) (d : N) (fails : nat) : list (N * nat) :=
   match fails with O => pf | S _ => pf ++ [(d, fails)] end.
 
+Definition frozen_decs (st : rstate) (hs : hstate) : list N * list N :=
+  (pubdecs st ++ residue_of st (h_name (hs_cfg hs)), subdecs st).
 Definition start_one (st : rstate) (hs : hstate) : hstate :=
-  match hs_started hs with
-  | Some _ => hs                                                    (* if h.started { continue } *)
-  | None => HS (hs_cfg hs) (Some (ST (mws st) (pubdecs st ++ residue_of st (h_name (hs_cfg hs))) (subdecs st)))
-  end.
+  if waiting st hs                                                   (* if h.started { continue } *)
+  then HS (hs_cfg hs) (Some (ST (mws st) (fst (frozen_decs st hs)) (snd (frozen_decs st hs))))
+  else hs.
+Definition snap_one (st : rstate) (n : N) (decs : list N * list N) (hs : hstate) : hstate :=
+  if name_is n hs && unstarted hs then HS (hs_cfg hs) (Some (ST (mws st) (fst decs) (snd decs))) else hs.
 
-Definition step (st : rstate) (o : op) : rstate :=
+(** [pinned = true]: the behaviour before the fix "a RunHandlers that cannot decorate the subscriber puts
+    the undecorated publisher back": the publisher decorators stayed applied ([residue]) and acted a
+    second time after the retry.  The code under test is [step] = [step_gen false]. *)
+Definition step_gen (pinned : bool) (st : rstate) (o : op) : rstate :=
   match o with
   | OAddHandler h =>
       match find_handler (h_name h) st with
       | Some _ => st                                                (* panic(DuplicateHandlerNameError), nothing changed *)
-      | None => RS (handlers st ++ [HS h None]) (mws st) (pubdecs st) (subdecs st) (pfails st) (residue st)
+      | None => RS (handlers st ++ [HS h None]) (mws st) (pubdecs st) (subdecs st) (pfails st) (residue st) (pending st)
       end
-  | OAddMw id app => RS (handlers st) (mws st ++ [MR true 0 id app]) (pubdecs st) (subdecs st) (pfails st) (residue st)
-  | OAddHMw n id app => RS (handlers st) (mws st ++ [MR false n id app]) (pubdecs st) (subdecs st) (pfails st) (residue st)
-  | OAddPubDec d f => RS (handlers st) (mws st) (pubdecs st ++ [d]) (subdecs st) (add_fail (pfails st) d f) (residue st)
-  | OAddSubDec d f => RS (handlers st) (mws st) (pubdecs st) (subdecs st ++ [d]) (add_fail (pfails st) d f) (residue st)
-  | OStart =>
+  | OAddMw id app => RS (handlers st) (mws st ++ [MR true 0 id app]) (pubdecs st) (subdecs st) (pfails st) (residue st) (pending st)
+  | OAddHMw n id app => RS (handlers st) (mws st ++ [MR false n id app]) (pubdecs st) (subdecs st) (pfails st) (residue st) (pending st)
+  | OAddPubDec d f => RS (handlers st) (mws st) (pubdecs st ++ [d]) (subdecs st) (add_fail (pfails st) d f) (residue st) (pending st)
+  | OAddSubDec d f => RS (handlers st) (mws st) (pubdecs st) (subdecs st ++ [d]) (add_fail (pfails st) d f) (residue st) (pending st)
+  | OStart | OStartAsync =>
       match first_unstarted st with
       | None => st                                                  (* nothing to start: no decorator is called *)
       | Some hs0 =>
           (* decorateHandlerPublisher of the first handler: constructors called last-added first *)
           match first_failing st (rev (pubdecs st)) with
-          | Some d => RS (handlers st) (mws st) (pubdecs st) (subdecs st) (spend (pfails st) d) (residue st)
+          | Some d => RS (handlers st) (mws st) (pubdecs st) (subdecs st) (spend (pfails st) d) (residue st) (pending st)
           | None =>
-              (* its publisher IS decorated now; decorateHandlerSubscriber: constructors in the order added *)
+              (* its publisher is decorated now; decorateHandlerSubscriber: constructors in the order added;
+                 on an error the undecorated publisher is put back (repaired) *)
               match first_failing st (subdecs st) with
               | Some d =>
                   let n0 := h_name (hs_cfg hs0) in
                   RS (handlers st) (mws st) (pubdecs st) (subdecs st) (spend (pfails st) d)
-                     ((n0, pubdecs st ++ residue_of st n0) :: residue st)
+                     (if pinned then (n0, pubdecs st ++ residue_of st n0) :: residue st else residue st) (pending st)
               | None =>
                   (* no constructor fails any more: every waiting handler is decorated, subscribed and started *)
-                  RS (map (start_one st) (handlers st)) (mws st) (pubdecs st) (subdecs st) (pfails st) []
+                  match o with
+                  | OStart =>
+                      (* ... and its goroutine has taken its copy of r.middlewares *)
+                      RS (map (start_one st) (handlers st)) (mws st) (pubdecs st) (subdecs st) (pfails st) [] (pending st)
+                  | _ =>
+                      RS (handlers st) (mws st) (pubdecs st) (subdecs st) (pfails st) []
+                         (pending st ++ map (fun hs => (h_name (hs_cfg hs), frozen_decs st hs))
+                                            (filter (waiting st) (handlers st)))
+                  end
               end
           end
+      end
+  | OSnap n =>
+      match pending_of st n with
+      | Some decs =>
+          (* THE linearisation point of the start of handler n with respect to registrations:
+             middlewares := append([]middleware{}, r.middlewares...) under middlewaresLock (l.476-478) *)
+          RS (map (snap_one st n decs) (handlers st)) (mws st) (pubdecs st) (subdecs st) (pfails st) (residue st)
+             (filter (fun p => negb (N.eqb (fst p) n)) (pending st))
+      | None => st
       end
   | OStop n =>
       match find_handler n st with
       | Some (HS _ (Some _)) =>
           (* its run loop ends, delete(r.handlers, name): the name is free again; what was registered
              for that NAME in r.middlewares stays *)
-          RS (filter (fun hs => negb (name_is n hs)) (handlers st)) (mws st) (pubdecs st) (subdecs st) (pfails st) (residue st)
-      | _ => st                                                     (* panic("handler is not started") / no such handler *)
+          RS (filter (fun hs => negb (name_is n hs)) (handlers st)) (mws st) (pubdecs st) (subdecs st) (pfails st) (residue st) (pending st)
+      | _ => st                                                     (* panic("handler is not started") / no such handler;
+                                                                       Stop of a handler whose copy is still pending is not modelled *)
       end
   | ODeliver _ => st
   end.
+Definition step := step_gen false.
 Definition exec (st : rstate) (ops : list op) : rstate := fold_left step ops st.
+Definition exec_pinned (st : rstate) (ops : list op) : rstate := fold_left (step_gen true) ops st.
 
 (** ** observable events of one message copy in one handler, in order *)
 Definition omsg := (M * ctxv * uctx)%type.
